@@ -588,6 +588,13 @@ func shapePatterns(r rng, tier string) *Case {
 	c := g.c
 	c.Knobs.SwitchThr = 256
 	pats := []string{"^[a-z]+$", ".*a.*", "[A-Z].*", "\\\\d+", "(a|b)+", "^x", "e$"}
+	// process-wide memos are cold only for keys the process has not seen: every run brings patterns
+	// of its own (an alternative that never matches keeps the meaning of the pattern)
+	for i := range pats {
+		if r.p(0.7) {
+			pats[i] = fmt.Sprintf("%s|zq%dz", pats[i], r.n(1000000))
+		}
+	}
 	subj := []string{"'alpha'", "'Beta'", "'x1'", "'42'", "'abba'", "Patient.name.given.first()", "Patient.id"}
 	for i := 0; i < 8; i++ {
 		switch r.n(3) {
@@ -599,7 +606,9 @@ func shapePatterns(r rng, tier string) *Case {
 			c.Programs = append(c.Programs, ProgSpec{Src: fmt.Sprintf("Patient.descendants().where($this is string).where($this.matches('%s')).count()", pick(r, pats))})
 		}
 	}
-	c.Programs = append(c.Programs, ProgSpec{Src: "(5 'mg').toQuantity() = (5 'mg')"}, ProgSpec{Src: "@2020-03-07T12:00:00-03:30 + 1 day"}, ProgSpec{Src: "'1.5'.toDecimal() + 2"})
+	u := r.n(100000)
+	c.Programs = append(c.Programs, ProgSpec{Src: fmt.Sprintf("(5.%d 'mg').toQuantity() = (5.%d 'mg')", u, u)}, ProgSpec{Src: fmt.Sprintf("@2020-03-07T12:00:00.%03d-03:30 + 1 day", u%1000)},
+		ProgSpec{Src: fmt.Sprintf("'1.%d'.toDecimal() + 2", u)}, ProgSpec{Src: fmt.Sprintf("'k%d' & 'x'", u)}, ProgSpec{Src: fmt.Sprintf("(%d 'cm') < (%d 'cm')", u, u+1)})
 	for ci := 0; ci < 3; ci++ {
 		var ops []Op
 		for oi := 0; oi < 6; oi++ {
